@@ -59,6 +59,7 @@ class Registry:
         self.opaque_call_hook = None
         self.func_hooks = {}    # fid -> hook(ex, args, kwargs): assumed model of a repo function (e.g. thread-local singleton access)
         self.record_methods = {}  # (record name, method) -> hook(ex, recv, args, kwargs): functional model of an immutable class (assumed)
+        self.attr_hooks = {}    # (class, attribute) -> hook(ex, obj) for opaque library objects (assumed)
         self.obj_method_hooks = {}  # method name -> hook(ex, recv, args, kwargs) for opaque objects (assumed behaviour with ghost effects)
         self.opaque_classes = {}  # class name -> module: classes whose __init__ only stores its parameters (checked per run)
         self.obj_uf_methods = {}  # method name on opaque objects -> uninterpreted function giving its result (for native replay)
